@@ -342,11 +342,18 @@ func (c *FnCtx) evIdent(x *eIdent, env *evalEnv) *Val {
 			}
 		}
 	}
-	// package-level constants
+	// package-level constants and variables
 	if env.pkg != nil {
 		if o := env.pkg.Scope().Lookup(x.name); o != nil {
 			if k, ok := o.(*types.Const); ok {
 				return c.constOf(k)
+			}
+			if g, ok := o.(*types.Var); ok {
+				if sp := c.L.prog.Package(env.pkg); sp != nil {
+					if gv, ok := sp.Members[g.Name()].(*ssa.Global); ok {
+						return c.load(c.state(env), c.mk(gv.Type(), c.globalRef(gv)))
+					}
+				}
 			}
 		}
 	}
@@ -399,6 +406,7 @@ func (c *FnCtx) fieldOf(v *Val, idx []int, env *evalEnv) *Val {
 			}
 			h := c.heapGet(c.state(env), fieldHeap(p.Elem(), f.Name()), "(Array Int "+c.sortOf(f.Type())+")")
 			cur = c.mk(f.Type(), app("select", h, cur.S))
+			c.typeAssume(c.state(env), cur)
 			continue
 		}
 		s, ok := isStruct(T)
@@ -484,6 +492,7 @@ func (c *FnCtx) evIndex(x *eIndex, env *evalEnv) *Val {
 		hn, hs := c.elemHeap(u.Elem())
 		h := c.heapGet(c.state(env), hn, hs)
 		r := c.mk(u.Elem(), c.at(h, hs, v.S, i.S))
+		c.typeAssume(c.state(env), r)
 		return r
 	case *types.Map:
 		ks := i.S
@@ -493,7 +502,9 @@ func (c *FnCtx) evIndex(x *eIndex, env *evalEnv) *Val {
 			ks = c.zero(u.Key())
 		}
 		val, _ := c.mapGet(c.state(env), v.T, v.S, ks)
-		return c.mk(u.Elem(), val)
+		r := c.mk(u.Elem(), val)
+		c.typeAssume(c.state(env), r)
+		return r
 	case *types.Array:
 		return c.mk(u.Elem(), app("select", v.S, i.S))
 	}
